@@ -26,7 +26,7 @@ from types import SimpleNamespace
 import numpy as np
 
 PROP = 'C12'
-TARGETS = ['T3', 'T5', 'T6', 'T7a', 'T7b', 'T7c', 'T7d', 'T7e', 'T7f', 'T7g', 'T7h', 'T7i', 'T7j', 'T7k']
+TARGETS = ['T3', 'T5', 'T6', 'T7a', 'T7b', 'T7c', 'T7d', 'T7e', 'T7f', 'T7g', 'T7h', 'T7i', 'T7j', 'T7k', 'T7l', 'T7m']
 LEAN_MODULES = ['HdVerif.Props.C12']
 MODEL_MODULES = ['HdVerif.Model.TilingJson', 'HdVerif.Model.TilingSlideJson']
 NAMESPACE = 'HdVerif.C12'
@@ -395,6 +395,27 @@ def _options_and_refusals(ctx):
         elif st == 'ok':
             ctx.fail({'sizes': [R, C, tr, tc], 'variant': variant}, {'helper': 'iter_tiled_full_frame_data', 'what': 'image that is not TILED_FULL accepted'},
                      site='iter_tiled_full_frame_data')
+        # ---- explicit positions: the per-frame transformer of an image that is NOT TILED_FULL (organisation TILED_SPARSE, or the optional
+        #      attribute absent) takes the frame's position from the per-frame functional groups -- which must be the transform of the
+        #      frame's own pixel matrix position, i.e. the same tiling the TILED_FULL helpers describe
+        ds2, _ = slide_image(R, C, tr, tc, tiled_full=False, origin=org, pixel_spacing=sp, orientation=ori)
+        attr = r.choice(['TILED_SPARSE', 'absent'])
+        if attr == 'absent':
+            del ds2.DimensionOrganizationType
+        nfr = int(ds2.NumberOfFrames)
+        for k_ in sorted(set([1, nfr, r.randint(1, nfr)])):
+            stT, T = _fetch(spatial.PixelToReferenceTransformer.for_image, ds2, frame_number=k_)
+            ctx.case(helper='PixelToReferenceTransformer.for_image(frame_number)/explicit-positions', organisation_attribute=attr)
+            cT = {'sizes': [R, C, tr, tc], 'variant': 'explicit-positions/' + attr, 'frame_number': k_}
+            if stT == 'err':
+                ctx.fail(cT, {'helper': 'for_image(frame_number)', 'error': T}, site='_get_spatial_information')
+                continue
+            pp = ds2.PerFrameFunctionalGroupsSequence[k_ - 1].PlanePositionSlideSequence[0]
+            cpos, rpos = int(pp.ColumnPositionInTotalImagePixelMatrix), int(pp.RowPositionInTotalImagePixelMatrix)
+            pt = np.asarray(T(np.array([[0, 0]])), dtype=float)[0]
+            if (rpos, cpos) != grid(R, C, tr, tc)[k_ - 1] or not close(pt, affine(org, ori, sp, cpos - 1, rpos - 1, org[2] if len(org) > 2 else 0.0), False):
+                ctx.fail(cT, {'helper': 'for_image(frame_number)', 'what': 'frame of an image with explicit positions is not put on its tile',
+                              'origin_of_frame': pt.tolist(), 'tile': [cpos, rpos]}, site='_get_spatial_information')
 
 
 # ------------------------------------------------------------------------------------------ TILED_FULL datasets
